@@ -233,13 +233,14 @@ class C20(Check):
             ops.append(op)
         for pos in churn_at:  # scale runs: hundreds of records are created AFTER short-lived ones were collected
             ops.insert(pos, {"op": "churn", "n": k.choice([400, 3000]), "client": 0})
-        if k.random() < 0.05:
+        if k.random() < 0.03:
             # object churn elsewhere in the process (a fault of the environment, not an operation on this storage): another, short-lived storage
             # creates records with dynamic attributes and is dropped and collected; plain Repeater objects come and go.  Usually tens to
             # thousands of objects, rarely more than a 14- or 16-bit counter holds
-            for _ in range(k.choice([1, 2, 3])):
+            for _ in range(k.choice([1, 1, 2])):
                 # ... or just short of a power of two, so that the records created next on this storage straddle a 14/15/16-bit counter wrap
-                cn = k.choice([10, 300, 300, 3000, (1 << 14) - k.randrange(12), (1 << 14) - k.randrange(12), (1 << 15) - k.randrange(12)]) if k.random() < 0.9 else (1 << 16) - k.randrange(12)
+                x = k.random()
+                cn = k.choice([10, 300, 300, 3000, (1 << 14) - k.randrange(12), (1 << 14) - k.randrange(12)]) if x < 0.85 else ((1 << 15) - k.randrange(12) if x < 0.95 else (1 << 16) - k.randrange(12))
                 ops.insert(w.randrange(len(ops) + 1), {"op": "churn", "n": cn, "client": 0})
         case = {"knobs": {"clients": nclients, "uuid_seed": k.getrandbits(32)}, "ops": ops}
         if k.random() < 0.08:
